@@ -689,6 +689,29 @@ def r_zerolen(prog, R):
                 r.viol(kk, f.name, f.loc(c["ln"]), "%s hands the wire-derived length '%s' to %s, which fails for 0, without testing it: a field of length zero that the RFC allows (empty option / SvcParam value, empty string) makes the whole message unparseable" % (f.name, render(a), c["callee"]))
 
 
+def r_cache(prog, R):
+    r = R.rule("R-C04-CACHE", "the combined view of a multi-string (what the TXT getters report) is marked valid only once it has been rebuilt: a failed rebuild is "
+               "retried, it does not turn the record's data into NULL for good", floor=1, analysis="exact guard on the validity store")
+    f = prog.func("ares_dns_multistring_combined", required=False)
+    if not r.require(f is not None, "ares_dns_multistring_combined not found"):
+        return
+    mf = MustFacts(f, track_calls=False)
+    st = [(b, i, el) for b, i, el in f.elements() if el["k"] == "asg" and is_field(el["e"]["l"], "cache_invalidated") and name_of_const(el["e"].get("r")) == "ARES_FALSE"]
+    if not r.require(bool(st), "store cache_invalidated = ARES_FALSE not found"):
+        return
+    for b, i, el in st:
+        k = "cache marked valid only after a successful rebuild"
+        okv = False
+        for c3, p3 in mf.cond_facts_at(b, i):
+            op, l3, r3 = norm_cmp(c3, p3)
+            if is_field(l3, "cache_str") and ((op == "!=" and r3 is not None and is_null(r3)) or op == "truth"):
+                okv = True
+        if okv:
+            r.ok(k, f.loc(el))
+        else:
+            r.viol(k, f.name, f.loc(el), "cache_invalidated is cleared without knowing that cache_str was rebuilt: after one allocation failure the combined string stays NULL/0 on every later call although the strings are still there (ares_dns_rr_get_bin on TXT data reports nothing)")
+
+
 def run(prog, R, tier):
     R.assume("tables/iana.json reproduces the IANA registries and RFC bit layouts correctly (written from the RFCs, not from the code)")
     r_bits(prog, R)
@@ -697,6 +720,7 @@ def run(prog, R, tier):
     r_keymap(prog, R)
     r_escape(prog, R)
     r_reject(prog, R)
+    r_cache(prog, R)
     codecrules.r_limit(prog, R, "R-C04-LIMIT")
     codecrules.r_pure(prog, R, "R-C04-PURE")
     r_zerolen(prog, R)
